@@ -505,13 +505,49 @@ def sc_observe_mutating_handlers(rng):
         obsapi.pop_exception_handler()
 
 
+def sc_default_attribute_error_warning(rng):
+    """dynamic defaults raising AttributeError, with the UserWarning traits issues for it
+    ignored / shown / turned into an error"""
+    import warnings
+
+    class A(HasTraits):
+        d = Int
+        e = Instance(RefObj, factory=lambda: (_ for _ in ()).throw(AttributeError("factory")))
+        f = Any
+
+        def _d_default(self):
+            raise AttributeError("default %d" % rng.randrange(10 ** 6))
+
+        def _f_default(self):
+            return self.nope      # AttributeError from a nested attribute access
+
+    for mode in ("error", "always", "ignore", "error"):
+        with warnings.catch_warnings():
+            warnings.simplefilter(mode)
+            for nm in ("d", "e", "f"):
+                a = A()
+                a.on_trait_change(lambda: None, nm)
+                for k in range(3):
+                    try:
+                        getattr(a, nm)
+                    except BaseException as exc:
+                        # walk the exception graph the C code built
+                        seen = 0
+                        while exc is not None and seen < 10:
+                            repr(exc)
+                            str(exc)
+                            exc = exc.__cause__ or exc.__context__
+                            seen += 1
+        gc.collect()
+
+
 SCENARIOS = [
     sc_handlers_mutate, sc_default_removes_trait, sc_default_method_removes_trait,
     sc_handler_removes_trait, sc_post_setattr_removes, sc_validator_removes_trait,
     sc_default_dict_replaced, sc_validator_replaces_dict, sc_delegate_chain, sc_delegate_cycle,
     sc_delegate_value_dies, sc_nonstr_prefix, sc_nonstr_names, sc_property_pickle,
     sc_gc_threshold, sc_trait_defs_roundtrip, sc_items_event, sc_huge, sc_getattr_hooks,
-    sc_observe_mutating_handlers,
+    sc_observe_mutating_handlers, sc_default_attribute_error_warning,
 ]
 
 
@@ -985,6 +1021,39 @@ def _mk_ref_experiments():
         h.sync_trait('a', o, remove=True)
         h.a = None
     ex.append(("sync_trait", new, sync, ob))
+
+    class WarnH(HasTraits):
+        d = Int
+
+        def _d_default(self):
+            raise self.__dict__["exc"]
+
+    def warn_default(mode):
+        def op(h, s):
+            import warnings
+            h.__dict__["exc"] = s
+            h.__dict__.pop("d", None)
+            with warnings.catch_warnings():
+                warnings.simplefilter(mode)
+                try:
+                    h.d
+                except (AttributeError, UserWarning) as caught:
+                    # break the reference cycles Python itself builds when one exception
+                    # object is raised repeatedly (traceback -> frame -> locals -> s)
+                    caught.__traceback__ = None
+                    caught.__cause__ = None
+                    caught.__context__ = None
+                    del caught
+            s.__traceback__ = None
+            s.__cause__ = None
+            s.__context__ = None
+            h.__dict__.pop("exc", None)
+        return op
+
+    def exc_sentinel(k):
+        return AttributeError("sentinel %d" % k)
+    for mode in ("error", "ignore", "always"):
+        ex.append(("default-raises-AttributeError/warnings=" + mode, WarnH, warn_default(mode), exc_sentinel))
 
     def cmp_modes(h, s):
         h.any_none = s
